@@ -40,6 +40,7 @@ type pipeObs struct {
 	written []int
 	done    map[int]int
 	before  []int
+	after   []int // QueueMessage called after Disconnect() had returned
 	leak    bool
 	note    string
 }
@@ -124,13 +125,18 @@ func runPipe(c pipeCfg) pipeObs {
 	for _, id := range ids {
 		ret[id] = new(atomic.Int64)
 	}
-	var dseq atomic.Int64
+	var dseq, dret atomic.Int64
+	call := make(map[int]*atomic.Int64, total)
+	for _, id := range ids {
+		call[id] = new(atomic.Int64)
+	}
 
 	fire := func() {
 		dseq.Store(seq.Add(1))
 		switch c.mode {
 		case 0, 3, 4:
 			p.Disconnect()
+			dret.Store(seq.Add(1))
 		case 1:
 			re.Close()
 		case 2:
@@ -153,6 +159,7 @@ func runPipe(c pipeCfg) pipeObs {
 			for j := 0; j < c.nMsg; j++ {
 				id := i*1000 + j
 				perturb(r)
+				call[id].Store(seq.Add(1))
 				p.QueueMessage(wire.NewMsgPong(uint64(id)+1), doneCh[id])
 				ret[id].Store(seq.Add(1))
 				returned.Add(1)
@@ -237,6 +244,9 @@ func runPipe(c pipeCfg) pipeObs {
 		if x := ret[id].Load(); x != 0 && d != 0 && x < d {
 			obs.before = append(obs.before, id)
 		}
+		if x, dr := call[id].Load(), dret.Load(); x != 0 && dr != 0 && x > dr {
+			obs.after = append(obs.after, id)
+		}
 	}
 	return obs
 }
@@ -253,7 +263,7 @@ func intsTok(xs []int) string {
 }
 
 // pipeLine renders scenario + observation as one protocol line:
-// C18 trace <nProd> <nMsg> <mode> w=<ids> lost=<ids with 0 signals> multi=<id:count> before=<ids> leak=<0|1> note=<..>
+// C18 trace <nProd> <nMsg> <mode> w=<ids> lost=<ids with 0 signals> multi=<id:count> before=<ids> after=<ids> leak=<0|1> note=<..>
 func pipeLine(c pipeCfg, o pipeObs) string {
 	var lost []int
 	var multi []string
@@ -283,8 +293,8 @@ func pipeLine(c pipeCfg, o pipeObs) string {
 		note = "-"
 	}
 	note = strings.ReplaceAll(note, " ", "+")
-	return fmt.Sprintf("C18 trace %d %d %d w=%s lost=%s multi=%s before=%s leak=%s note=%s", c.nProd, c.nMsg, c.mode,
-		intsTok(o.written), intsTok(lost), mt, intsTok(o.before), leak, note)
+	return fmt.Sprintf("C18 trace %d %d %d w=%s lost=%s multi=%s before=%s after=%s leak=%s note=%s", c.nProd, c.nMsg, c.mode,
+		intsTok(o.written), intsTok(lost), mt, intsTok(o.before), intsTok(o.after), leak, note)
 }
 
 // runPrestart queues n messages (with done channels) on a peer whose
